@@ -185,8 +185,13 @@ func (e *Engine) exec(fr *Frame, blk *ssa.BasicBlock, idx int, st *State, k func
 			})
 			return
 		case *ssa.Go:
-			// spawned goroutine: not modelled (sequential reasoning); recorded only.
+			// spawned goroutine: not modelled (sequential reasoning). A go statement in a
+			// function under contract moves effects out of the contract's reach, so it is an
+			// obligation that fails unless the contract says "opt allow-go=<reason>".
 			e.Stats["go-statements-skipped"]++
+			if st.PureDepth == 0 && !fr.Pure && (fr.V == nil || fr.V.FC == nil || fr.V.FC.B.Opts["allow-go"] == "") {
+				e.oblige(st, fr, "safety:unmodelled-go-statement", "", e.C.False(), e.pos(x.Pos()))
+			}
 		case *ssa.Send:
 			e.send(st, fr, x)
 		case *ssa.Select:
